@@ -286,6 +286,46 @@ func TestDispatchRoutesByPartIndex(t *testing.T) {
 			aggs = append(aggs, a)
 			return a
 		}))
+		// optionally the tag stage sits in front (as in every server): it removes repeated tags and adds the static ones, so a
+		// datapoint that arrives with a repeated tag belongs to the series without the repeat - and to that series' worker
+		var front gostatsd.PipelineHandler = bh
+		var static gostatsd.Tags
+		stage := rapid.SampledFrom([]string{"none", "none", "plain", "static"}).Draw(t, "tag-stage")
+		if stage == "static" {
+			static = gostatsd.Tags{"st:1"}
+		}
+		if stage != "none" {
+			front = statsd.NewTagHandler(bh, static.Copy(), nil)
+			for bi, b := range batches {
+				for _, m := range b {
+					if len(m.Tags) > 0 && m.Type != gostatsd.GAUGE && rapid.Bool().Draw(t, "repeated-tag-twin") {
+						tw := gen.CopyMetric(m)
+						tw.Tags = append(tw.Tags, tw.Tags[0])
+						batches[bi] = append(batches[bi], tw)
+					}
+				}
+			}
+		}
+		afterStage := func(b []*gostatsd.Metric) *gostatsd.MetricMap {
+			if stage == "none" {
+				return gen.MapFromMetrics(b)
+			}
+			var out []*gostatsd.Metric
+			for _, m := range b {
+				c := gen.CopyMetric(m)
+				seen := map[string]bool{}
+				var tags gostatsd.Tags
+				for _, tg := range append(c.Tags.Copy(), static...) {
+					if !seen[tg] {
+						seen[tg] = true
+						tags = append(tags, tg)
+					}
+				}
+				c.Tags = tags
+				out = append(out, c)
+			}
+			return gen.MapFromMetrics(out)
+		}
 		ctx, cancel := context.WithCancel(context.Background())
 		// optionally a dispatch that is abandoned first: its context is already done and the workers are not running yet,
 		// so nothing can be queued beyond the buffers. Whatever of it is not delivered must be gone, not resurface later.
@@ -303,14 +343,34 @@ func TestDispatchRoutesByPartIndex(t *testing.T) {
 		total := model.Agg{}
 		for _, b := range batches {
 			mm := gen.MapFromMetrics(b)
-			for k, i := range splitIndex(t, gen.CopyMap(mm), n) {
+			exp := afterStage(b)
+			for k, i := range splitIndex(t, gen.CopyMap(exp), n) {
 				if j, ok := want[k]; ok && j != i {
 					vt.Fail(t, "C06:value-dependent", "series %v changes part between batches: %d then %d", k, j, i)
 				}
 				want[k] = i
 			}
-			total.AddMap(gen.CopyMap(mm))
-			bh.DispatchMetricMap(ctx, mm)
+			if stage == "none" {
+				total.AddMap(exp)
+			} else {
+				// the stage merges map entries (not datapoints): fold the entries of the dispatched map under their new identity
+				for k, sr := range model.FromMap(gen.CopyMap(mm)) {
+					var tags []string
+					if k.Tags != "" {
+						tags = strings.Split(k.Tags, "\x1f")
+					}
+					seen := map[string]bool{}
+					var nt []string
+					for _, tg := range append(tags, static...) {
+						if !seen[tg] {
+							seen[tg] = true
+							nt = append(nt, tg)
+						}
+					}
+					total.Merge(model.Agg{model.MakeKey(k.Type, k.Name, nt, k.Source): sr})
+				}
+			}
+			front.DispatchMetricMap(ctx, mm)
 		}
 		// which worker ran which aggregator: ask through Process (runs f(workerId, aggr) in the worker goroutine)
 		ids := map[int]int{}
@@ -324,6 +384,7 @@ func TestDispatchRoutesByPartIndex(t *testing.T) {
 		cancel()
 		<-done // workers drained their queues
 		got := model.Agg{}
+		seenOn := map[model.Key]int{}
 		for _, a := range aggs {
 			wid, ok := ids[a.id]
 			if !ok {
@@ -338,6 +399,10 @@ func TestDispatchRoutesByPartIndex(t *testing.T) {
 							}
 						}
 					}
+					if w0, dup := seenOn[k]; dup && w0 != wid {
+						vt.Fail(t, "C06:series-on-two-workers", "series %v was received by workers %d and %d (tag stage %s)", k, w0, wid, stage)
+					}
+					seenOn[k] = wid
 					if want[k] != wid {
 						vt.Fail(t, "C06:dispatch-wrong-worker", "series %v received by worker %d, Split assigns part %d of %d", k, wid, want[k], n)
 					}
